@@ -11,6 +11,7 @@ type VerifProbe struct {
 	Config      func(g *GlobalVarsMain, cfg *Config, hp *HFilePath)
 	DayStart    func(g *GlobalVarsMain, zeit int)
 	AfterEvatra func(g *GlobalVarsMain, zeit int, w *WaterSharedVars)
+	BeforeNitro func(g *GlobalVarsMain, zeit, subd int)
 	SubStep     func(g *GlobalVarsMain, zeit, subd int, steps, wdt float64, w *WaterSharedVars, n *NitroSharedVars)
 	DayEnd      func(g *GlobalVarsMain, zeit int, steps, wdt float64, c *CropSharedVars, w *WaterSharedVars)
 }
@@ -51,6 +52,12 @@ func verifDayStart(g *GlobalVarsMain, zeit int) {
 func verifAfterEvatra(g *GlobalVarsMain, zeit int, w *WaterSharedVars) {
 	if p := verifProbeOf(g); p != nil && p.AfterEvatra != nil {
 		p.AfterEvatra(g, zeit, w)
+	}
+}
+
+func verifBeforeNitro(g *GlobalVarsMain, zeit, subd int) {
+	if p := verifProbeOf(g); p != nil && p.BeforeNitro != nil {
+		p.BeforeNitro(g, zeit, subd)
 	}
 }
 
